@@ -180,6 +180,13 @@ def rdfTypesBlank : Re := .cat (alts [digit, pnCharsU, chr ':']) (.star (alts [p
 jsonld/src/parser.rs `parse_json` -/
 def jsonldBnode : Re := plus digit
 
+/-- With `produce_generalized_rdf` a blank node identifier used as PROPERTY is emitted as the predicate of the
+quad **without** being relabelled (node-map generation relabels node identifiers only): the label the document
+spells, as recognised by `rdf_types::BlankId::new`, reaches sophia unchanged -/
+def jsonldBnodePred : Re := rdfTypesBlank
+/-- the same labels without `:` (the one character class `rdf_types` allows and `BNODE_ID` does not) -/
+def jsonldBnodePredNoColon : Re := .cat (alts [digit, pnCharsU]) (.star pnChars)
+
 /-! ## executable views used by the driver -/
 
 def lowerAscii (w : List Nat) : List Nat := w.map (fun c => if 65 ≤ c ∧ c ≤ 90 then c + 32 else c)
